@@ -129,6 +129,15 @@ def run(ctx):
         glrows = must + rnd.sample(rest, min(len(rest), 2500))
     for r in glrows:
         inputs.append(("literal", r["text"].replace("<NL>", "\n").replace("<E>", "é").replace("<U>", "\U0001F600"), None))
+    # (2c) ill-formed generic types (spec/GenArity.tla): a constructor applied to the wrong number of arguments, then used
+    with ctx.timed("tlc_arity"):
+        ga = common.tlc(ctx, "GenArity", cfg="GenArity", workers=4, timeout=900)
+        common.require_tlc_ok(ctx, ga, "GenArity")
+    arows = ga["cases"]["CASE"]
+    if ctx.quick:
+        arows = rnd.sample(arows, min(len(arows), 1500))
+    for r in arows:
+        inputs.append(("type-arity", r["text"].replace("<NL>", "\n") + "\ndef main() -> None:\n    pass\n", None))
     # (3) outside the model: atom strings (totality only)
     n_atoms = 2 if ctx.quick else 3
     atom_inputs = ["".join(t) for n in range(1, n_atoms + 1) for t in itertools.product(ATOMS, repeat=n)]
